@@ -67,7 +67,8 @@ static int ref_tl(const octet* d, size_t n, u32* tag, size_t* len, size_t* used)
 		if (i + r > n) return 0;
 		if (d[i] == 0) return 0;                           /* non-minimal */
 		for (k = 0; k < r; ++k) l = l << 8 | d[i++];
-		if (l < 128) return 0;                             /* long form for a short length */
+		if (l < 128) return 0;
+		if (l == SIZE_MAX) return 0;                       /* SIZE_MAX is the library's error value: implementation limit */                             /* long form for a short length */
 	}
 	*tag = t; *len = l; *used = i;
 	return 1;
@@ -352,7 +353,7 @@ int LLVMFuzzerTestOneInput(const uint8_t* data, size_t n)
 		CHECK(len % 4 == 0, "b64IsValid accepts a length not divisible by 4");
 		b64To(0, &cnt, s);
 		CHECK(cnt <= len / 4 * 3 && cnt + 2 >= len / 4 * 3 || len == 0, "b64To length %zu out of range for %zu chars", cnt, len);
-		b = (octet*)malloc(cnt ? cnt : 1); b64To(b, &cnt2, s);
+		b = (octet*)malloc(cnt ? cnt : 1); cnt2 = cnt; /* in: capacity */ b64To(b, &cnt2, s);
 		CHECK(cnt2 == cnt, "b64To probe/real mismatch");
 		t = (char*)malloc(len + 5); b64From(t, b, cnt);
 		CHECK(strcmp(t, s) == 0, "b64From(b64To(s)) = %s != s = %s (non-canonical accepted)", t, s);
@@ -406,7 +407,9 @@ int LLVMFuzzerTestOneInput(const uint8_t* data, size_t n)
 	{
 		size_t cnt = 0; octet* e; bign_params* p2 = (bign_params*)malloc(sizeof(bign_params));
 		CHECK(p->l == 128 || p->l == 192 || p->l == 256, "bignParamsDec accepted level %zu", (size_t)p->l);
-		CHECK(bignParamsEnc(0, &cnt, p) == ERR_OK, "bignParamsEnc rejects decoded params");
+		{ err_t ee = bignParamsEnc(0, &cnt, p);
+		  if (ee == ERR_BAD_PARAMS) { free(p2); free(p); free(d); return 0; }   /* the encoder also validates the parameters (operability); the decoder only parses */
+		  CHECK(ee == ERR_OK, "bignParamsEnc fails on decoded params with %u", (unsigned)ee); }
 		CHECK(cnt == n, "bignParamsEnc length %zu != accepted %zu (non-canonical accepted)", cnt, n);
 		e = (octet*)malloc(cnt); CHECK(bignParamsEnc(e, &cnt, p) == ERR_OK, "bignParamsEnc failed");
 		CHECK(memcmp(e, d, n) == 0, "bign params re-encoding differs");
